@@ -24,6 +24,7 @@ import GqlProofs.EndToEnd.LoadedWP
 import GqlProofs.Validate.OverlapIds
 import GqlProofs.EndToEnd.RootKeys
 import GqlProofs.EndToEnd.ParsedSelStarts
+import GqlProofs.EndToEnd.SourceOutcome
 /-
   C08 — validation accepts exactly what the rules allow.
 
@@ -2442,3 +2443,97 @@ end C08Final
 #print axioms C08_no_valid_request_rejected
 #print axioms C08_no_invalid_request_passes
 #print axioms C08_no_invalid_request_passes_no_subscription
+
+/- non-vacuity of the final statements and the need for the two residual hypotheses, over SOURCE TEXTS
+   (one kernel evaluation of lexer, parsers, loader, specification and rules: `SourceWitness.check_true`):
+   the prelude source `SourceWitness.preludeText` (the five built-in scalars, the four built-in directives, the
+   eight introspection types) and the schema source
+     schema { query: Q subscription: S } interface I { a: Int } type S implements I { a: Int }
+     type O implements I { a: Int } type Q { a: Int f(x: Int): Int g(r: Int! = 5): Int } -/
+section C08FinalWitness
+open Gql Gql.Validate Gql.Validate.Rules Gql.EndToEnd Gql.Load Gql.EndToEnd.SourceWitness
+
+/-- the 27 default rules, each run alone, report nothing ⇒ `validate defaultRules` reports nothing -/
+theorem C08_validate_default_of_silent {s : Schema} {d : QueryDoc} (h : silent s d = true) :
+    validate defaultRules s d = .ok [] := by
+  unfold silent at h
+  rw [C08_all_rules_eq_default] at h ⊢
+  exact (C08_rule_list_silent_iff c08AllRules s d (by decide)).2 fun r hr =>
+    of_decide_eq_true (List.all_eq_true.1 h r hr)
+
+/-- **the hypotheses of `C08_sources_default_iff_spec` are satisfiable together, both sides true**:
+    `query($v: Int) { f(x: $v) ...F } fragment F on Q { a }` -/
+theorem C08_sources_default_iff_spec_witness_valid :
+    (∀ src ∈ srcs, Lexer.Utf8.valid src.2) ∧ Parser.parseSchemas 0 srcs = .ok sdW ∧ load sdW = .ok sW ∧
+    PreludeDeclared sdW ∧ Parser.parseQuery 0 qGood = .ok (docOf qGood) ∧
+    subscriptionsSelectRoot sW (docOf qGood) = true ∧ defaultedLocationsHarmless sW (docOf qGood) = true ∧
+    validate defaultRules sW (docOf qGood) = .ok [] ∧ Spec.specValid sW (docOf qGood) = true :=
+  have O := outcome
+  ⟨O.valid, O.parsed, O.loaded, O.prelude, O.good.1, O.good.2.1, O.good.2.2.1,
+    C08_no_valid_request_rejected O.valid O.parsed O.loaded O.prelude O.good.1 O.good.2.2.1 O.good.2.2.2.1,
+    O.good.2.2.2.1⟩
+
+/-- … both sides false: `query($v: Int) { f(x: $w) ...F } fragment F on Q { a }` -/
+theorem C08_sources_default_iff_spec_witness_invalid :
+    Parser.parseQuery 0 qBad = .ok (docOf qBad) ∧
+    subscriptionsSelectRoot sW (docOf qBad) = true ∧ defaultedLocationsHarmless sW (docOf qBad) = true ∧
+    validate defaultRules sW (docOf qBad) ≠ .ok [] ∧ Spec.specValid sW (docOf qBad) = false :=
+  have O := outcome
+  ⟨O.bad.1, O.bad.2.1, O.bad.2.2.1,
+    fun hv => absurd (C08_no_invalid_request_passes O.valid O.parsed O.loaded O.prelude O.bad.1 O.bad.2.1 hv)
+      (by rw [O.bad.2.2.2.1]; decide),
+    O.bad.2.2.2.1⟩
+
+/-- … a subscription, both sides true: `subscription { ... on I { a } }` -/
+theorem C08_sources_default_iff_spec_witness_subscription :
+    Parser.parseQuery 0 qSubOne = .ok (docOf qSubOne) ∧
+    subscriptionsSelectRoot sW (docOf qSubOne) = true ∧ defaultedLocationsHarmless sW (docOf qSubOne) = true ∧
+    validate defaultRules sW (docOf qSubOne) = .ok [] ∧ Spec.specValid sW (docOf qSubOne) = true :=
+  have O := outcome
+  ⟨O.subOne.1, O.subOne.2.1, O.subOne.2.2.1,
+    C08_no_valid_request_rejected O.valid O.parsed O.loaded O.prelude O.subOne.1 O.subOne.2.2.1 O.subOne.2.2.2.1,
+    O.subOne.2.2.2.1⟩
+
+/-- **`subscriptionsSelectRoot` is needed — FINDING.**  `subscription { ... on I { ... on O { a } } }` against
+    `interface I  type S implements I  type O implements I` with subscription root `S`: both fragment spreads
+    are possible (`S` and `O` are possible types of `I`), `O` does not apply to the root type, so
+    `CollectFields` yields NO root field.  §5.2.3.1 demands exactly one entry (`Spec.singleRootField` fails,
+    hence `Spec.specValid`); the 27 default rules report nothing (SingleFieldSubscriptions tests
+    `len(fields) > 1`).  Every other hypothesis of `C08_sources_default_iff_spec` holds. -/
+theorem C08_subscription_without_root_field_counterexample :
+    (∀ src ∈ srcs, Lexer.Utf8.valid src.2) ∧ Parser.parseSchemas 0 srcs = .ok sdW ∧ load sdW = .ok sW ∧
+    PreludeDeclared sdW ∧ Parser.parseQuery 0 qSubZero = .ok (docOf qSubZero) ∧
+    defaultedLocationsHarmless sW (docOf qSubZero) = true ∧
+    subscriptionsSelectRoot sW (docOf qSubZero) = false ∧
+    validate defaultRules sW (docOf qSubZero) = .ok [] ∧ Spec.specValid sW (docOf qSubZero) = false :=
+  have O := outcome
+  ⟨O.valid, O.parsed, O.loaded, O.prelude, O.subZero.1, O.subZero.2.2.1, O.subZero.2.1,
+    C08_validate_default_of_silent O.subZeroSilent, O.subZero.2.2.2.1⟩
+
+/-- **`defaultedLocationsHarmless` is needed — the recorded finding, over source texts and for the whole
+    rule set.**  `query($v: Int) { g(r: $v) }` against `g(r: Int! = 5): Int`: the specification allows the
+    nullable variable (the location has a default value, §5.8.5), all 28 predicates hold; validation rejects
+    the request (VariablesInAllowedPosition).  Every other hypothesis of `C08_sources_default_iff_spec` holds. -/
+theorem C08_location_default_counterexample_sources :
+    (∀ src ∈ srcs, Lexer.Utf8.valid src.2) ∧ Parser.parseSchemas 0 srcs = .ok sdW ∧ load sdW = .ok sW ∧
+    PreludeDeclared sdW ∧ Parser.parseQuery 0 qLocDefault = .ok (docOf qLocDefault) ∧
+    subscriptionsSelectRoot sW (docOf qLocDefault) = true ∧
+    defaultedLocationsHarmless sW (docOf qLocDefault) = false ∧
+    validate defaultRules sW (docOf qLocDefault) ≠ .ok [] ∧ Spec.specValid sW (docOf qLocDefault) = true := by
+  have O := outcome
+  refine ⟨O.valid, O.parsed, O.loaded, O.prelude, O.locDefault.1, O.locDefault.2.1, O.locDefault.2.2.1, ?_,
+    O.locDefault.2.2.2.1⟩
+  intro hv
+  rw [C08_all_rules_eq_default] at hv
+  have h1 := (C08_rule_list_silent_iff c08AllRules _ _ (by decide)).1 hv variablesInAllowedPosition (by simp [c08AllRules])
+  have h2 := O.locDefault.2.2.2.2
+  rw [decide_eq_false_iff_not] at h2
+  exact h2 h1
+
+end C08FinalWitness
+
+#print axioms C08_sources_default_iff_spec_witness_valid
+#print axioms C08_sources_default_iff_spec_witness_invalid
+#print axioms C08_sources_default_iff_spec_witness_subscription
+#print axioms C08_subscription_without_root_field_counterexample
+#print axioms C08_location_default_counterexample_sources
